@@ -124,6 +124,8 @@ pub struct RaftIndexManager {
     lock_file: std::fs::File,
     inner: Option<Box<RaftIndexInnerManager>>,
     naming_inner_node_manage: Option<Addr<InnerNodeManage>>,
+    /// completion of the index rewrite scheduled by the request being handled
+    write_done: Option<tokio::sync::oneshot::Receiver<()>>,
 }
 
 impl Drop for RaftIndexManager {
@@ -162,6 +164,7 @@ impl RaftIndexManager {
             lock_file,
             inner: None,
             naming_inner_node_manage: None,
+            write_done: None,
         }
     }
 
@@ -262,6 +265,8 @@ impl RaftIndexManager {
             return Err(Self::inner_is_empty_error());
         }
         let mut inner = self.inner.take();
+        let (done_tx, done_rx) = tokio::sync::oneshot::channel();
+        self.write_done = Some(done_rx);
         async move {
             if let Some(v) = &mut inner {
                 match v.write_index(index).await {
@@ -279,6 +284,7 @@ impl RaftIndexManager {
             if change_member {
                 act.do_notify_membership(true);
             }
+            let _ = done_tx.send(());
         })
         .wait(ctx);
         Ok(RaftIndexResponse::None)
@@ -454,10 +460,28 @@ pub enum RaftIndexResponse {
 }
 
 impl Handler<RaftIndexRequest> for RaftIndexManager {
-    type Result = anyhow::Result<RaftIndexResponse>;
+    type Result = ResponseFuture<anyhow::Result<RaftIndexResponse>>;
 
     fn handle(&mut self, msg: RaftIndexRequest, ctx: &mut Self::Context) -> Self::Result {
         //log::info!("RaftIndexRequest:{:?}",&msg);
+        let r = self.do_handle(msg, ctx);
+        // a save is acknowledged only after its rewrite of the index file has been carried out
+        let write_done = self.write_done.take();
+        Box::pin(async move {
+            if let Some(done) = write_done {
+                let _ = done.await;
+            }
+            r
+        })
+    }
+}
+
+impl RaftIndexManager {
+    fn do_handle(
+        &mut self,
+        msg: RaftIndexRequest,
+        ctx: &mut Context<Self>,
+    ) -> anyhow::Result<RaftIndexResponse> {
         match msg {
             RaftIndexRequest::LoadIndexInfo => self.load_index_info(),
             RaftIndexRequest::SaveSnapshots(snapshots) => self.write_snapshots(ctx, snapshots),
